@@ -964,3 +964,40 @@ def m_parse_rfc3339(I, c, args, fr):
     else:
         good = I.ctx.choose(2, 'rfc3339') == 0
     return ok(Opaque('DateTime', 'instant')) if good else err(Opaque('ParseError', 'invalid'))
+
+# ---------------------------------------------------------------------------- double-ended iterator methods (provided methods: built on next_back)
+@model('DoubleEndedIterator::nth_back')
+def m_nth_back(I, c, args, fr):
+    from models_iter import iter_next_back, STOP
+    it = args[0]
+    for _ in range(args[1]):
+        x = iter_next_back(I, it)
+        if x is STOP:
+            return none()
+        I.drop_value(x)
+    x = iter_next_back(I, it)
+    return none() if x is STOP else some(x)
+
+@model('DoubleEndedIterator::rfind')
+def m_rfind_it(I, c, args, fr):
+    from models_iter import iter_next_back, STOP
+    while True:
+        x = iter_next_back(I, args[0])
+        if x is STOP:
+            return none()
+        if I.ctx.decide(I.call_value(args[1], [ref_to(x)])):
+            return some(x)
+
+@model('DoubleEndedIterator::rfold')
+def m_rfold(I, c, args, fr):
+    from models_iter import iter_next_back, STOP
+    acc = args[1]
+    while True:
+        x = iter_next_back(I, args[0])
+        if x is STOP:
+            return acc
+        acc = I.call_value(args[2], [acc, x])
+
+@model('Iterator::advance_by')
+def m_advance_by(I, c, args, fr):
+    raise Unsupported('Iterator::advance_by (unstable)')
